@@ -90,6 +90,73 @@ def run(chk):
         chk.call(dumper, chk, f, E, mol, ens)
     chk.call(r6_stream, chk, prog.func(f"{WR}:dump"))
     chk.call(r3_class_wrappers, chk, ens)
+    chk.call(r7_cdxml_siblings, chk)
+
+
+def r7_cdxml_siblings(chk):
+    """`load(fmt="cdxml")` without a key and `load_all(fmt="cdxml")` are two views of one drawing: the single object is the
+    first of the list.  load_all parses the members of a collection of the file object (its fragments, in document order);
+    load's by-position arm must parse member 0 of *that* collection.  Going through the file's own `[...]` lookup instead
+    resolves a *label* (labels are ordered differently from fragments, and an unlabelled drawing has none)."""
+    from ..canon import Env, specialize
+
+    prog = chk.prog
+    fl, fa = prog.func(f"{RD}:load"), prog.func(f"{RD}:load_all")
+
+    def cdxml_arm(f):
+        inner = _dispatch_quiet(chk, f)
+        arm = [c for c in inner.cases if "cdxml" in _case_lits(c)]
+        return arm[0].body if arm else None
+
+    bl, ba = cdxml_arm(fl), cdxml_arm(fa)
+    if bl is None or ba is None or isinstance(bl[0], ast.Raise) or isinstance(ba[0], ast.Raise):
+        return
+    # the collection load_all walks
+    coll = None
+    for s in ba:
+        for n in ast.walk(s):
+            its = [g.iter for g in n.generators] if isinstance(n, (ast.ListComp, ast.GeneratorExp)) else ([n.iter] if isinstance(n, ast.For) else [])
+            for it in its:
+                if any(isinstance(c, ast.Call) and isinstance(c.func, ast.Attribute) and c.func.attr == "_parse_fragment" for c in ast.walk(n)):
+                    coll = it
+    if coll is None:
+        chk.note(f"C09.R7 not decided: {fa.key}: the cdxml arm does not parse the members of a collection with _parse_fragment")
+        return
+    fobj = {nm.id for nm in ast.walk(coll) if isinstance(nm, ast.Name)}
+    view = specialize(bl, "key", None, {}) if "key" in fl.params() else bl
+    env = Env(ast.Module(body=view, type_ignores=[]))
+    ctor = [c for s in view for c in walk_no_nested(s) if isinstance(c, ast.Call) and call_name(c) == "otype"]
+    chk.require(len(ctor) >= 1 and ctor[0].args, f"{fl.key}: cdxml arm (no key) builds nothing")
+    src = env.expand(ctor[0].args[0], keep=set(fl.params()))
+    key = f"{fl.key}:cdxml:by-position-is-first-of-load_all"
+    pf = [c for c in ast.walk(src) if isinstance(c, ast.Call) and isinstance(c.func, ast.Attribute) and c.func.attr == "_parse_fragment" and c.args]
+    if pf:
+        a0 = env.expand(pf[0].args[0], keep=set(fl.params()))
+        ok = isinstance(a0, ast.Subscript) and norm(a0.value).split(".")[-1] == norm(coll).split(".")[-1] and isinstance(a0.slice, ast.Constant) and a0.slice.value == 0
+        chk.decide(ok, "C09.R7", key, fl.where(ctor[0]), f"parses `{short(a0, 40)}`, load_all walks `{short(coll, 40)}`",
+                   f"load(fmt='cdxml') parses `{short(a0, 40)}` while load_all walks `{short(coll, 40)}`: the single object is not the first of the list")
+        return
+    # `<the file object>[...]`: the object load_all takes its collection from is, here as there, the CDXMLFile built from the source
+    def is_file_obj(e):
+        return (isinstance(e, ast.Name) and e.id in fobj) or (isinstance(e, ast.Call) and (call_name(e) or "").split(".")[-1] == "CDXMLFile")
+
+    looked_up = [x for x in ast.walk(src) if isinstance(x, ast.Subscript) and is_file_obj(x.value)]
+    if looked_up:
+        chk.fail("C09.R7", key, fl.where(ctor[0]),
+                 f"without a key load(fmt='cdxml') returns `{short(looked_up[0], 40)}` - a lookup among the file's *labels* - while load_all parses `{short(coll, 40)}` "
+                 "(the fragments in document order): the single object is not the first of the list, and a drawing without labels raises IndexError")
+        return
+    # any other spelling (a shared generator helper consumed with next(), ...): this clause is an additional necessary condition
+    # that is decided for the two shapes above only; it does not refuse the whole check over a form it cannot relate
+    chk.note(f"C09.R7 not decided: {fl.key} builds its key-less cdxml result from `{short(src, 60)}`, which is neither member 0 of what load_all walks nor a lookup on the file object")
+
+
+def _dispatch_quiet(chk, f):
+    """the inner `match fmt` of the molli arm, without emitting the obligations `_dispatch` emits"""
+    from ..report import Check
+
+    sub = Check(chk.prop, chk.prog, chk.tier)
+    return _dispatch(sub, f, "supported_fmts_molli")
 
 
 def _dispatch(chk, f, fmt_table):
